@@ -900,6 +900,7 @@ type sysCase struct {
 	Fields  hexInput   `json:"fields"`
 	Fields2 hexInput   `json:"event_fields"`
 	More    []hexInput `json:"more_event_fields,omitempty"` // further events of the same write (same partition, consecutive records)
+	Again   *hexInput  `json:"tags_again,omitempty"`        // a second write names the same set in another spelling (before later partitions are created)
 }
 
 type sysBatch struct {
@@ -1022,6 +1023,22 @@ func genSysBatch(rng *vh.Rng, k int) sysBatch {
 				}
 			}
 		}
+		if rng.Chance(1, 2) {
+			// the partition is named again in a different spelling; partitions created later make the index be saved again
+			pm2 := rng.Perm(len(q))
+			q2 := make([][2]string, len(q))
+			for a, b := range pm2 {
+				q2[a] = q[b]
+			}
+			if t2 := spellText(rng, q2); t2 != tt {
+				if s1, e1 := tagParse(tt); e1 == nil {
+					if s2, e2 := tagParse(t2); e2 == nil && setsEqual(s1, s2) {
+						h := hin(t2)
+						c.Again = &h
+					}
+				}
+			}
+		}
 		sb.Cases = append(sb.Cases, c)
 	}
 	sb.Restart = rng.Chance(1, 2)
@@ -1107,6 +1124,25 @@ func runSysBatch(sb sysBatch, sec *vh.Section) {
 		}
 		partitions++
 		res.Dist(sec, fmt.Sprintf("events-per-write=%d", len(evf)))
+		if c.Again != nil {
+			var wr2 api.WriteResult
+			msg := fmt.Sprintf("%d.9", i)
+			err2 := srv.Client.Write(ctx, c.Again.str(), f, []*api.LogEvent{{Timestamp: int64(i*10 + 10), Message: msg}}, &wr2)
+			if err2 == nil {
+				err2 = wr2.Err
+			}
+			res.Dist(sec, "second-spelling")
+			if err2 != nil && !isResourceErr(err2) {
+				res.SpecFail(vh.SpecFailure{Section: "system", Kind: "write-acceptance", Input: sb, Impl: fmt.Sprint(err2), Spec: "accepted=true",
+					What: "a second write naming an existing partition in another spelling of its tag set is refused"})
+			} else if err2 == nil {
+				if _, ok := decodeFields(string(wf)); ok {
+					exps[msg] = &exp{c: c, set: set, flds: wf, evf: hin("")}
+					order = append(order, msg)
+					lines = append(lines, "rt "+vh.HxS(t))
+				}
+			}
+		}
 		for j, ef := range evf {
 			all := string(wf) + string(fieldsParseQuiet(ef))
 			if _, ok := decodeFields(all); !ok {
@@ -1295,6 +1331,162 @@ func checkIndexKeys(dir, phase string, sb sysBatch, sec *vh.Section, caseOf func
 	}
 }
 
+// ---------------------------------------------------------------------------------------------
+// pipes: the provenance fields of piped events (system level)
+
+type pipeCase struct {
+	Sources []map[string]string `json:"sources"`      // tag sets of the source partitions (all carry src=1, the pipe's condition)
+	EvFlds  []string            `json:"event_fields"` // field text of the events written to each source
+}
+
+var pipeKeys = []string{"app", "host", "zone", "a", "b", "k1", "name", "ip", "rack", "dc"}
+var pipeVals = []string{"1", "web", "h1", "x,y", "a=b", "", "a b", "10.0.0.1", "Z", "x\"y\"z", "é"}
+
+func genPipeCase(rng *vh.Rng) pipeCase {
+	var c pipeCase
+	for i := 0; i < 3; i++ {
+		m := map[string]string{"src": "1", "id": strconv.Itoa(i)}
+		for k := 3 + rng.Intn(3); k > 0; k-- { // at least 5 pairs: an emitter that does not keep the line's order shows
+			m[rng.PickS(pipeKeys)] = rng.PickS(pipeVals)
+		}
+		c.Sources = append(c.Sources, m)
+		c.EvFlds = append(c.EvFlds, []string{"", "lvl=info", "lvl=\"a,b\",n=1"}[rng.Intn(3)])
+	}
+	return c
+}
+
+func runPipeCase(c pipeCase, sec *vh.Section) {
+	dir := lrsrv.NewDir()
+	defer os.RemoveAll(dir)
+	srv, err := lrsrv.Start(dir, lrsrv.Opts{WriteFlushMs: 40}) // 40 ms: a starting pipe worker must not meet the library's tail race (C10's F34)
+	for try := 0; err != nil && try < 10 && strings.Contains(err.Error(), "address already in use"); try++ {
+		srv, err = lrsrv.Start(dir, lrsrv.Opts{WriteFlushMs: 40})
+	}
+	if err != nil {
+		res.Note("pipes: %v", err)
+		return
+	}
+	defer srv.Stop()
+	ctx := context.Background()
+	if _, err := srv.Exec("create pipe pv from src=1"); err != nil {
+		res.Note("pipes: create pipe: %v", err)
+		return
+	}
+	type exp struct {
+		set  tag.Set
+		line string
+		evb  field.Fields
+		m    map[string]string
+	}
+	exps := map[string]*exp{}
+	var lines []string
+	var order []string
+	for i, m := range c.Sources {
+		set := tag.MapToSet(m)
+		line := string(set.Line())
+		evb, _ := fieldsParse(c.EvFlds[i])
+		var wr api.WriteResult
+		evs := []*api.LogEvent{{Timestamp: int64(i*10 + 1), Message: fmt.Sprintf("%d.0", i), Fields: c.EvFlds[i]}, {Timestamp: int64(i*10 + 2), Message: fmt.Sprintf("%d.1", i), Fields: c.EvFlds[i]}}
+		err := srv.Client.Write(ctx, line, "", evs, &wr)
+		if err == nil {
+			err = wr.Err
+		}
+		if err != nil {
+			res.Note("pipes: write %q: %v", line, err)
+			return
+		}
+		for j := 0; j < 2; j++ {
+			msg := fmt.Sprintf("%d.%d", i, j)
+			exps[msg] = &exp{set: set, line: line, evb: evb, m: m}
+			order = append(order, msg)
+		}
+		lines = append(lines, strings.TrimRight("prov "+hexJoin(flatSorted(m)), " "))
+	}
+	outs, derr := vh.Batch(args.Driver, lines)
+	if derr != nil {
+		res.Fatal(args.Out, "driver: %v", derr)
+	}
+	// wait until the copies have arrived (progress based; events a starting worker lost to the library's tail race are C10's)
+	var qr api.QueryResult
+	last, lastChange := -1, time.Now()
+	for time.Since(lastChange) < 8*time.Second {
+		qr = api.QueryResult{}
+		if err := srv.Client.Query(ctx, &api.QueryRequest{Query: "select from {logrange.pipe=pv} limit 1000", Limit: 1000}, &qr); err == nil && qr.Err == nil {
+			if len(qr.Events) != last {
+				last, lastChange = len(qr.Events), time.Now()
+			}
+			if len(qr.Events) >= len(order) {
+				break
+			}
+		}
+		time.Sleep(50 * time.Millisecond)
+	}
+	res.Dist(sec, fmt.Sprintf("arrived=%d/%d", len(qr.Events), len(order)))
+	for _, ev := range qr.Events {
+		e := exps[ev.Message]
+		if e == nil {
+			continue
+		}
+		i, _ := strconv.Atoi(strings.SplitN(ev.Message, ".", 2)[0])
+		res.Eval(sec, e.line+"/"+ev.Message)
+		// SPEC: the piped event carries its own fields followed by the names and values of the source's tag set, in the order
+		// of the source's tag line (= field.Parse of the line the system emits for the source)
+		want := string(e.evb)
+		for _, kv := range [][]string{flatSorted(e.m)} {
+			for _, x := range kv {
+				want += string([]byte{byte(len(x))}) + x
+			}
+		}
+		got, perr := fieldsParse(ev.Fields)
+		modelItems := kvField(outs[i], "items")
+		wantModel := vh.HxS(string(e.evb) + string(vh.UnHx(modelItems)))
+		if perr == nil && vh.HxS(string(got)) != wantModel && first(outs[i]) == "same" {
+			res.Mismatch(vh.Mismatch{Section: "pipes", Function: "pipe.worker provenance fields", Input: c, Impl: vh.HxS(string(got)), Model: wantModel})
+		}
+		if perr != nil || string(got) != want {
+			wi, _ := decodeFields(want)
+			gi, _ := decodeFields(string(got))
+			res.SpecFail(vh.SpecFailure{Section: "pipes", Kind: "provenance-differs", Input: map[string]interface{}{"case": c, "message": ev.Message}, Impl: fmt.Sprintf("Fields=%q → %q err=%v", ev.Fields, gi, perr), Spec: fmt.Sprintf("%q", wi),
+				What: "the fields of a piped event are not its own fields followed by the names and values of the source's tag set in the order of the source's tag line"})
+		}
+	}
+}
+
+func sectionPipes(rng *vh.Rng) {
+	sec := res.Section("pipes", "system-correspondence",
+		"in-process server, a pipe `from src=1`, three source partitions with 5..7 Safe tags each (values with separators, quotes, blanks, non-ASCII, empty), two events per source with and without own fields; the copies read from {logrange.pipe=pv}: Fields must parse to the event's own fields followed by the source's names and values in tag-line order (SPEC), the provenance part must be the model's field.Parse(line) (MODEL). One worker start per source. non-trivial = every arrived copy, distinct by (source line, message)")
+	n := 4
+	if args.Thorough {
+		n = 40
+	}
+	var cs []pipeCase
+	for _, f := range vh.CorpusFiles(args.Corpus) {
+		var c struct {
+			Section string   `json:"section"`
+			Input   pipeCase `json:"input"`
+		}
+		if vh.ReadJSON(f, &c) == nil && c.Section == "pipes" && len(c.Input.Sources) > 0 {
+			cs = append(cs, c.Input)
+		}
+	}
+	for i := 0; i < n; i++ {
+		cs = append(cs, genPipeCase(rng))
+	}
+	sem := make(chan struct{}, 4)
+	done := make(chan struct{}, len(cs))
+	for i := range cs {
+		sem <- struct{}{}
+		go func(i int) {
+			defer func() { <-sem; done <- struct{}{} }()
+			guard("pipes", func() { runPipeCase(cs[i], sec) })
+		}(i)
+	}
+	for range cs {
+		<-done
+	}
+	res.Done(sec)
+}
+
 // isResourceErr: the machine ran out of descriptors / ports (the server's journal layer keeps chunk files open after a
 // shutdown, about 4 descriptors per partition and start): not a verdict about the property
 func isResourceErr(err error) bool {
@@ -1415,5 +1607,6 @@ func main() {
 	guard("tags", func() { sectionTags(rng.Fork("tags")) })
 	guard("fields", func() { sectionFields(rng.Fork("fields")) })
 	guard("system", func() { sectionSystem(rng.Fork("system")) })
+	guard("pipes", func() { sectionPipes(rng.Fork("pipes")) })
 	res.Write(args.Out)
 }
